@@ -260,17 +260,46 @@ def core_phase(ctx, n):
     return fs, tally
 
 
+def edge_values(t):
+    lo, hi = T.int_range(t)
+    vs = {lo, lo + 1, 0, 1, 2, 3, hi // 2, hi // 2 + 1, hi - 1, hi}
+    if lo < 0:
+        vs |= {-1, -2, -3, lo // 2}
+    return sorted(vs)
+
+
+def operator_programs():
+    """(source, name, argument pairs)"""
+    out = []
+    for t in T.INTS:
+        w = T.INTS[t][1]
+        vs = edge_values(t)
+        for op in ["+", "-", "*", "/", "%", "&", "|", "^"]:
+            out.append((f"pub fn main(x: {t}, y: {t}) -> {t} {{ x {op} y }}", f"{t} {op}", [(a, b) for a in vs for b in vs]))
+        for op in ["==", "<", "<=", ">", ">=", "!="]:
+            out.append((f"pub fn main(x: {t}, y: {t}) -> bool {{ x {op} y }}", f"{t} {op}", [(a, b) for a in vs for b in vs]))
+        for op in ["<<", ">>"]:
+            out.append((f"pub fn main(x: {t}, y: u8) -> {t} {{ x {op} y }}", f"{t} {op}",
+                        [(a, b) for a in vs for b in sorted({0, 1, 2, w // 2, w - 2, w - 1, w, w + 1, 255})]))
+        out.append((f"pub fn main(x: {t}, y: {t}) -> {t} {{ (x / y) + (x % y) }}", f"{t} /+%", [(a, b) for a in vs for b in vs]))
+    return out
+
+
 def tast_phase(ctx, n):
     """the tree check.rs itself builds (harness op typed_ast) through the source semantics and the model of the compiler:
     generated programs of the whole language and the corpus (hand-written programs of the repository) on random inputs"""
     from . import corpus, mutants
     fs = []
-    tally = {"generated": 0, "corpus": 0, "value": 0, "panic": 0, "outside_model": 0, "not_translated": 0, "rejected": 0}
+    tally = {"generated": 0, "corpus": 0, "operators": 0, "value": 0, "panic": 0, "outside_model": 0, "not_translated": 0, "rejected": 0}
     cases = [gen_case(ctx.rng.randrange(1 << 48), i, 4, features=None, depth=3) for i in range(n)]
     for c in cases:
         c["origin"] = "generated"
     for name, src in corpus.programs():
         cases.append({"id": len(cases), "seed": None, "src": src, "origin": "corpus", "name": name, "gen": None})
+    # every binary operator at every integer type on ALL pairs of values at the ends of the type and around zero
+    # (a whole-program view of what C03 compares operator by operator: MIN / MAX, MIN % -1, MAX + 1, shifts by width - 1, ...)
+    for src, name, pairs in operator_programs():
+        cases.append({"id": len(cases), "seed": None, "src": src, "origin": "operators", "name": name, "gen": None, "pairs": pairs})
     ta = common.run_lines_guarded(common.GVH, [{"id": c["id"], "op": "typed_ast", "src": c["src"]} for c in cases], per_case_timeout=20.0)
     todo = []
     for c in cases:
@@ -292,6 +321,9 @@ def tast_phase(ctx, n):
                 c["args"] = [[(small_value(ctx.rng, t) if i % 2 == 0 else T.rand_value(ctx.rng, t, 0.4)) for _, t in main["params"]] for i in range(6)]
             except Exception:
                 continue
+        if c["origin"] == "operators":
+            c["params"] = main["params"]
+            c["args"] = [list(pr) for pr in c["pairs"]]
         c["inputs"] = [[gen_prog.val_json(t, v) for (_, t), v in zip(c["params"], a)] for a in c["args"]]
         todo.append(c)
     impl = common.run_lines_guarded(common.GVH, [impl_case(c, "ssa", True) for c in todo], per_case_timeout=30.0)
@@ -364,7 +396,8 @@ def run(ctx):
                 "(Bit.bitBody); bits, panic flag and reason must agree exactly and no program may be outside the model. Third stream: "
                 "the tree check.rs itself builds for a program (harness op typed_ast: operand types, cast sources and literal types as "
                 "the checker inferred them) run through Src.evalStmts and Bit.bitBody, for generated programs of the whole language "
-                "and for the corpus (the hand-written programs of the repository's tests and examples, on random inputs); programs "
+                "and for the corpus (the hand-written programs of the repository's tests and examples, on random inputs), and for every binary "
+                "operator at every integer type on all pairs of values at the ends of the type and around zero; programs "
                 "with for-join, join(), multiplication by a negative literal, constants that are not literals or numbers without a "
                 "type are outside the compiler model and only compared with the source semantics or counted.",
         "distribution": {"runs": tally, "core_fragment_runs": ctally, "checker_tree_runs": ttally, "generator": stats},
